@@ -46,7 +46,7 @@ def _cols(eng, st, M, f):
     from . import npspec
     m = npspec.as_mat(eng, st, M)
     ref = M if isinstance(M, core.Ref) else npspec.materialise(eng, st, m)
-    t = st.heap[ref.oid].term
+    t = eng.pure(st.heap[ref.oid].term)
     n = core.to_z3(m.shape[0], core.INT)
     return t, n, m
 
@@ -82,6 +82,10 @@ def generate(contract, callees=None):
     cal.update(callees or {})
     eng = Engine(contract, fd, cal)
     obls = eng.run()
+    for o in obls:
+        o.premises = list(eng.defs) + list(o.premises)
+    eng.entry_premises = list(eng.defs) + list(eng.entry_premises)
+    eng.canaries = [(nm, list(eng.defs) + list(pc)) for nm, pc in eng.canaries]
     return eng, obls
 
 
